@@ -309,19 +309,19 @@ def shards(tier):
         if cfg == 'feb29':
             bases = ['feb28']
         if cfg in ('weekdays', 'only-weekdays'):
-            bases = ['mid', 'sat']
+            bases = ['mid', 'sat'] if (tier == 'thorough' or cfg == 'only-weekdays') else ['sat']
         if cfg == 'wrap-midnight':
-            bases = ['mid', 'dec31']
+            bases = ['mid', 'dec31'] if tier == 'thorough' else ['mid']
         nb = len(CONFIGS[cfg][2])
         for base in bases:
             for utc in ((False, True) if cfg in ('plain', 'wrap-midnight') else (False,)):
-                if tier == 'quick' and utc and base != 'mid':
+                if tier == 'quick' and utc and cfg != 'plain':
                     continue
                 for bidx in range(nb):
                     out.append({'name': f'timedate {cfg} base={base} utc={utc} boundary={bidx}', 'scenario': 'scen_timedate',
                                 'params': {'cfg': cfg, 'base': base, 'utc': utc, 'nobs': 1 if tier == 'quick' else 2,
                                            'bidx': bidx}, 'cost': 10})
-    pairs = (('plain', 'usec'), ('nothing', 'plain'), ('plain', 'nothing'), ('nothing', 'near-hour')) if tier == 'quick' else (
+    pairs = (('plain', 'usec'), ('nothing', 'near-hour')) if tier == 'quick' else (
         ('nothing', 'near-hour'),
         ('plain', 'two-ranges'), ('two-ranges', 'plain'), ('plain', 'nothing'), ('nothing', 'wrap-midnight'),
         ('wrap-midnight', 'equal-endpoints'), ('plain', 'usec'), ('nothing', 'plain'))
@@ -331,14 +331,14 @@ def shards(tier):
             out.append({'name': f'reconfig {a}->{b} boundary={bidx}', 'scenario': 'scen_reconfig',
                         'params': {'cfg': a, 'newcfg': b, 'base': 'mid', 'bidx': bidx,
                                    'span_s': 1 if tier == 'quick' else 2, 'gmax': 2 if tier == 'quick' else 3}, 'cost': 40})
-    for bidx in range(2):
+    for bidx in range(1 if tier == 'quick' else 2):
         out.append({'name': f'two blocks plain+two-ranges boundary={bidx}', 'scenario': 'scen_timedate',
                     'params': {'cfg': 'plain', 'base': 'mid', 'utc': False, 'second_cfg': 'two-ranges', 'nobs': 1, 'bidx': bidx},
                     'cost': 20})
     for base in ('dec31', 'mid'):
         for bidx in range(2):
             for by_seq in (0, 1):
-                if tier == 'quick' and base == 'mid' and by_seq:
+                if tier == 'quick' and (base, bidx, by_seq) not in (('dec31', 0, 0), ('dec31', 1, 1), ('mid', 1, 0)):
                     continue
                 out.append({'name': f'timespan base={base} boundary={bidx} seq={by_seq}', 'scenario': 'scen_timespan',
                             'params': {'base': base, 'bidx': bidx, 'by_seq': by_seq}, 'cost': 30})
